@@ -341,3 +341,242 @@ Proof.
       apply B_bind; [built_tac|intro v]. destruct v; try solve [built_tac].
       induction todo; simpl; built_tac.
 Qed.
+
+Lemma built_eval_expr n P e x : Built (eval_expr n P e x). Proof. apply built_all. Qed.
+Lemma built_eval_exprs n P e l : Built (eval_exprs n P e l). Proof. apply built_all. Qed.
+Lemma built_eval_call n P e f a : Built (eval_call n P e f a). Proof. apply built_all. Qed.
+Lemma built_exec_stmt n P e s : Built (exec_stmt n P e s). Proof. apply built_all. Qed.
+Lemma built_exec_stmts n P e l : Built (exec_stmts n P e l). Proof. apply built_all. Qed.
+Lemma built_exec_block n P e l : Built (exec_block n P e l). Proof. apply built_all. Qed.
+Lemma built_exec_cond n P e c b : Built (exec_cond n P e c b). Proof. apply built_all. Qed.
+Lemma built_exec_while n P e c b : Built (exec_while n P e c b). Proof. apply built_all. Qed.
+Lemma built_exec_for n P e v r b : Built (exec_for n P e v r b). Proof. apply built_all. Qed.
+#[global] Hint Resolve built_eval_expr built_eval_exprs built_eval_call built_exec_stmt built_exec_stmts
+  built_exec_block built_exec_cond built_exec_while built_exec_for : core.
+
+(* ---------- monotonicity (any stop plan, either order of the stop test) ---------- *)
+Definition Mono {A} (m : M A) : Prop :=
+  forall s r s', m s = (r, s') ->
+    st_yields s <= st_yields s' /\ suffix (st_trace s) (st_trace s') /\
+    st_stop_at s' = st_stop_at s /\ st_check_after_yield s' = st_check_after_yield s /\
+    (st_stopped s = true -> st_stopped s' = true /\ st_yields s' = st_yields s).
+
+Lemma mono_tick : Mono tick.
+Proof.
+  intros s r s' H. unfold tick in H. destruct (st_stopped s) eqn:St.
+  - inversion H; subst. repeat split; auto.
+  - destruct (_ && _); inversion H; subst; simpl; repeat split; auto; discriminate.
+Qed.
+
+Theorem built_mono A (m : M A) : Built m -> Mono m.
+Proof.
+  induction 1.
+  - intros s r s' E. destruct (H _ _ _ E) as ((Y & O & S & C) & T & _).
+    repeat split; auto; try lia; congruence.
+  - apply mono_tick.
+  - intros s r s2 E. unfold bindM in E. destruct (m s) as [[a|e] s1] eqn:E1.
+    + destruct (IHBuilt _ _ _ E1) as (Y1 & T1 & O1 & C1 & S1).
+      destruct (H1 a _ _ _ E) as (Y2 & T2 & O2 & C2 & S2).
+      split; [lia|]. split; [eapply suffix_trans; eauto|]. split; [congruence|]. split; [congruence|].
+      intro St. destruct (S1 St) as (St1 & Ye1). destruct (S2 St1) as (St2 & Ye2). split; [auto|lia].
+    + inversion E; subst. eauto.
+  - intros s r s' E. rewrite <- H in E. eauto.
+Qed.
+
+(* ---------- the stop simulation ---------- *)
+(* an uninterrupted run of the corrected code, not (yet) stopped *)
+Definition live (s : state) : Prop :=
+  st_stopped s = false /\ st_check_after_yield s = true /\ st_stop_at s = None.
+
+(* the final state of a run stopped by the flag raised at yield k *)
+Definition stopped_at (k : nat) (s : state) : Prop :=
+  st_yields s = S k /\ st_stopped s = true /\ st_stop_at s = Some k /\ st_check_after_yield s = true.
+
+Definition StopSim {A} (m : M A) : Prop :=
+  forall k s r s', live s -> m s = (r, s') ->
+    live s' /\ st_yields s <= st_yields s' /\ suffix (st_trace s) (st_trace s') /\
+    ((st_yields s <= k < st_yields s' /\
+      exists sk, m (set_stop (Some k) s) = (Er EStopped, sk) /\ stopped_at k sk /\
+                 suffix (st_trace s) (st_trace sk) /\ suffix (st_trace sk) (st_trace s'))
+     \/
+     (~ (st_yields s <= k < st_yields s') /\ m (set_stop (Some k) s) = (r, set_stop (Some k) s'))).
+
+Lemma set_stop_ctl_eq o s s' :
+  ctl_eq s s' ->
+  set_ctl o (st_stopped s) (st_yields s) (st_check_after_yield s) s' = set_stop o s'.
+Proof. intros (a & b & c & d). unfold set_stop. now rewrite a, c, d. Qed.
+
+Lemma stopsim_atom A (m : M A) : atom m -> StopSim m.
+Proof.
+  intros Hm k s r s' (L1 & L2 & L3) E. destruct (Hm _ _ _ E) as (C & T & I).
+  pose proof C as (Cy & Co & Cs & Cc).
+  split; [unfold live; repeat split; congruence|]. split; [lia|]. split; [auto|].
+  right. split; [lia|]. unfold set_stop at 1. rewrite I. f_equal. now apply set_stop_ctl_eq.
+Qed.
+
+Lemma stopsim_tick : StopSim tick.
+Proof.
+  intros k s r s' (L1 & L2 & L3) E. unfold tick in E. rewrite L1, L3 in E. simpl in E.
+  inversion E; subst; clear E. simpl.
+  split; [unfold live; simpl; auto|]. split; [lia|]. split; [auto|].
+  destruct (Nat.eqb k (st_yields s)) eqn:K.
+  - apply Nat.eqb_eq in K. left. split; [lia|].
+    exists (upd_yield (S (st_yields s)) true (set_stop (Some k) s)).
+    split.
+    + unfold tick. simpl. rewrite L1, L2. subst k. now rewrite Nat.eqb_refl.
+    + unfold stopped_at. simpl. repeat split; auto; now subst.
+  - apply Nat.eqb_neq in K. right. split; [lia|].
+    unfold tick. simpl. rewrite L1. apply Nat.eqb_neq in K. rewrite K. reflexivity.
+Qed.
+
+Lemma stopsim_bind A B (m : M A) (f : A -> M B) :
+  StopSim m -> (forall a, StopSim (f a)) -> StopSim (bindM m f).
+Proof.
+  intros Hm Hf k s r s2 L H. unfold bindM in H. destruct (m s) as [[a|e] s1] eqn:E.
+  - destruct (Hm k _ _ _ L E) as (L1 & Y1 & T1 & D1).
+    destruct (Hf a k _ _ _ L1 H) as (L2 & Y2 & T2 & D2).
+    split; [auto|]. split; [lia|]. split; [eapply suffix_trans; eauto|].
+    destruct D1 as [(R1 & sk & Ek & Sk & Ta & Tb) | (N1 & Ek)].
+    + left. split; [lia|]. exists sk. unfold bindM. rewrite Ek.
+      repeat split; auto; try apply Sk. eapply suffix_trans; eauto.
+    + destruct D2 as [(R2 & sk & Ek2 & Sk & Ta & Tb) | (N2 & Ek2)].
+      * left. split; [lia|]. exists sk. unfold bindM. rewrite Ek.
+        split; [exact Ek2|]. split; [auto|]. split; [eapply suffix_trans; eauto|auto].
+      * right. split; [lia|]. unfold bindM. rewrite Ek. exact Ek2.
+  - inversion H; subst. destruct (Hm k _ _ _ L E) as (L1 & Y1 & T1 & D1).
+    split; [auto|]. split; [auto|]. split; [auto|].
+    destruct D1 as [(R1 & sk & Ek & Rest) | (N1 & Ek)].
+    + left. split; [auto|]. exists sk. unfold bindM. rewrite Ek. auto.
+    + right. split; [auto|]. unfold bindM. rewrite Ek. auto.
+Qed.
+
+Theorem built_stopsim A (m : M A) : Built m -> StopSim m.
+Proof.
+  induction 1.
+  - now apply stopsim_atom.
+  - apply stopsim_tick.
+  - now apply stopsim_bind.
+  - intros k s r s' L E. rewrite <- H in E. rewrite <- H. eauto.
+Qed.
+
+(* ---------- C14.1  stop_is_prefix ---------- *)
+(* [m] run from the same state s0 (not stopped, corrected order of the stop test)
+   once uninterrupted and once with the flag raised during yield number k.
+   No fuel caveat: both runs have the same fuel, and the statement holds whatever
+   the uninterrupted result is (including Er EOutOfFuel). *)
+Definition StopPrefix {A} (m : M A) : Prop :=
+  forall k s0, st_stopped s0 = false -> st_check_after_yield s0 = true ->
+  forall rI sI, m (set_stop None s0) = (rI, sI) ->
+  forall rk sk, m (set_stop (Some k) s0) = (rk, sk) ->
+    (* the flag is never raised: yield number k does not happen in this run *)
+    (~ (st_yields s0 <= k < st_yields sI) /\
+     rk = rI /\ sk = set_stop (Some k) sI /\ st_stopped sk = false)
+    \/
+    (* the flag is raised at yield k *)
+    (st_yields s0 <= k < st_yields sI /\
+     rk = Er EStopped /\ st_yields sk = S k /\ st_stopped sk = true /\
+     prefix (rev (st_trace s0)) (rev (st_trace sk)) /\
+     prefix (rev (st_trace sk)) (rev (st_trace sI))).
+
+Theorem built_stop_prefix A (m : M A) : Built m -> StopPrefix m.
+Proof.
+  intros Hb k s0 St Ck rI sI EI rk sk Ek.
+  assert (L : live (set_stop None s0)) by (unfold live; simpl; auto).
+  destruct (built_stopsim _ _ Hb k _ _ _ L EI) as ((L1 & L2 & L3) & Y & T & D).
+  change (set_stop (Some k) (set_stop None s0)) with (set_stop (Some k) s0) in D.
+  simpl in Y, T, D.
+  destruct D as [(R & sk' & Ek' & (S1 & S2 & S3 & S4) & Ta & Tb) | (N & Ek')];
+    rewrite Ek in Ek'; inversion Ek'; subst.
+  - right. repeat split; auto using suffix_prefix_rev; lia.
+  - left. repeat split; auto.
+Qed.
+
+Definition StopPrefixAll (n : nat) (P : program) : Prop :=
+  (forall e x, StopPrefix (eval_expr n P e x)) /\
+  (forall e l, StopPrefix (eval_exprs n P e l)) /\
+  (forall e name args, StopPrefix (eval_call n P e name args)) /\
+  (forall e s, StopPrefix (exec_stmt n P e s)) /\
+  (forall e l, StopPrefix (exec_stmts n P e l)) /\
+  (forall e l, StopPrefix (exec_block n P e l)) /\
+  (forall e c body, StopPrefix (exec_cond n P e c body)) /\
+  (forall e c body, StopPrefix (exec_while n P e c body)) /\
+  (forall e var rg body, StopPrefix (exec_for n P e var rg body)).
+
+Theorem stop_is_prefix : forall n P, StopPrefixAll n P.
+Proof. intros. repeat split; intros; apply built_stop_prefix; auto. Qed.
+
+(* ----- lifted to whole runs ----- *)
+Definition program_m (fuel : nat) (P : program) : M unit :=
+  let* _ := tick in let* _ := exec_stmts fuel P [] (p_stmts P) in ret tt.
+
+Lemma built_program_m fuel P : Built (program_m fuel P).
+Proof.
+  unfold program_m. apply B_bind; [apply B_tick|intros _].
+  apply B_bind; [auto|intros _]. apply B_atom, atom_ret.
+Qed.
+
+Lemma test_report_set_stop o s : test_report (set_stop o s) = set_stop o (test_report s).
+Proof. unfold test_report. simpl. destruct (Nat.eqb (st_total s) 0); reflexivity. Qed.
+Lemma test_report_yields s : st_yields (test_report s) = st_yields s.
+Proof. unfold test_report. destruct (Nat.eqb (st_total s) 0); reflexivity. Qed.
+Lemma test_report_fails s : st_fails (test_report s) = st_fails s.
+Proof. unfold test_report. destruct (Nat.eqb (st_total s) 0); reflexivity. Qed.
+Lemma test_report_trace s :
+  st_trace (test_report s) = st_trace s \/ exists txt, st_trace (test_report s) = EvPrint [PStr txt] :: st_trace s.
+Proof. unfold test_report. destruct (Nat.eqb (st_total s) 0); [auto|]. right. simpl. eauto. Qed.
+Lemma test_report_no_tests s : st_total s = 0 -> test_report s = s.
+Proof. unfold test_report. now intros ->. Qed.
+
+(* the summary of the tests run so far: nothing, or one print event *)
+Definition summary_tail (tail : list event) : Prop := tail = [] \/ exists txt, tail = [EvPrint [PStr txt]].
+
+Theorem run_program_stop_prefix : forall fuel P k s0,
+  st_stopped s0 = false -> st_check_after_yield s0 = true ->
+  forall oI sI, run_program fuel P (set_stop None s0) = (oI, sI) ->
+  forall ok sk, run_program fuel P (set_stop (Some k) s0) = (ok, sk) ->
+    (~ (st_yields s0 <= k < st_yields sI) /\ ok = oI /\ sk = set_stop (Some k) sI)
+    \/
+    (st_yields s0 <= k < st_yields sI /\ ok = OErr EStopped /\ st_yields sk = S k /\
+     exists pre tail, rev (st_trace sk) = pre ++ tail /\
+                      prefix (rev (st_trace s0)) pre /\ prefix pre (rev (st_trace sI)) /\
+                      summary_tail tail /\ (st_total sk = 0 -> tail = [])).
+Proof.
+  intros fuel P k s0 St Ck oI sI EI ok sk Ek.
+  unfold run_program in EI, Ek. fold (program_m fuel P) in EI, Ek.
+  destruct (program_m fuel P (set_stop None s0)) as [rI s1] eqn:E1.
+  destruct (program_m fuel P (set_stop (Some k) s0)) as [rk s1k] eqn:E1k.
+  destruct (built_stop_prefix _ _ (built_program_m fuel P) k s0 St Ck _ _ E1 _ _ E1k)
+    as [(N & -> & -> & _) | (R & -> & Y & S & Pa & Pb)].
+  - left.
+    assert (st_yields sI = st_yields s1).
+    { destruct rI as [|[]]; inversion EI; subst; try destruct (Nat.ltb _ _); 
+        try match goal with H : (_, _) = (_, _) |- _ => inversion H; subst end;
+        auto using test_report_yields. }
+    split; [lia|].
+    destruct rI as [u|e].
+    + rewrite test_report_set_stop in Ek. simpl in Ek. 
+      destruct (Nat.ltb 0 (st_fails (test_report s1))); inversion EI; inversion Ek; subst; auto.
+    + destruct e; inversion EI; inversion Ek; subst; rewrite ?test_report_set_stop; auto.
+  - inversion Ek; subst; clear Ek.
+    assert (Ys : st_yields sI = st_yields s1 /\ suffix (st_trace s1) (st_trace sI)).
+    { assert (suffix (st_trace s1) (st_trace (test_report s1))).
+      { destruct (test_report_trace s1) as [->|(t & ->)]; auto. }
+      destruct rI as [|[]]; inversion EI; subst; try destruct (Nat.ltb _ _);
+        try match goal with H : (_, _) = (_, _) |- _ => inversion H; subst end;
+        auto using test_report_yields. }
+    destruct Ys as (Ys & Ts).
+    right. split; [lia|]. split; [auto|]. split; [now rewrite test_report_yields|].
+    exists (rev (st_trace s1k)).
+    destruct (test_report_trace s1k) as [E|(txt & E)].
+    + exists []. rewrite E, app_nil_r. split; [auto|]. split; [auto|].
+      split; [eapply prefix_trans; [eauto|]; now apply suffix_prefix_rev|].
+      split; [left; auto|auto].
+    + exists [EvPrint [PStr txt]]. rewrite E. simpl. split; [auto|]. split; [auto|].
+      split; [eapply prefix_trans; [eauto|]; now apply suffix_prefix_rev|].
+      split; [right; eauto|].
+      intro Z. exfalso.
+      assert (st_total s1k = 0).
+      { unfold test_report in Z. destruct (Nat.eqb (st_total s1k) 0) eqn:Q; [now apply Nat.eqb_eq|exact Z]. }
+      rewrite test_report_no_tests in E by auto.
+      apply (f_equal (@List.length _)) in E. simpl in E. lia.
+Qed.
